@@ -757,6 +757,18 @@ func init() {
 				}
 			}
 		}
+		if *sweep {
+			// structured part: small PhyloXML / Nextstrain documents from a grammar (the decoders accept them; what
+			// the clade converters then meet: no phylogeny, no clade, unnamed tips, single-child clades, deep nesting,
+			// missing or odd attributes, null / wrong-typed JSON fields, other versions)
+			n := 0
+			for si, d := range structuredDocs() {
+				if n%*sweepMod == *sweepIdx {
+					addJob(fmt.Sprintf("C02-struct-%s-%d", formatNames[d.format], si), d.format, d.text)
+				}
+				n++
+			}
+		}
 		for k := *from; k < *to; k++ {
 			s := *seed*1000003 + int64(k)
 			r := rand.New(rand.NewSource(s))
@@ -844,4 +856,84 @@ func convDOn(r *rand.Rand, pal *palette, names []string, id int) []dNode {
 	}
 	rec(st, 0, true)
 	return d
+}
+
+type structDoc struct {
+	format int
+	text   string
+}
+
+// small documents that the XML / JSON decoders accept (or nearly), enumerated from a grammar of clades
+func structuredDocs() []structDoc {
+	var out []structDoc
+	// clades: depth <= 3, 0..3 children, optional name / length / confidence / taxonomy
+	var clades func(depth int) []string
+	clades = func(depth int) []string {
+		deco := []string{"", "<name>a</name>", "<branch_length>1.5</branch_length>", "<name>b</name><branch_length>0</branch_length><confidence type=\"bootstrap\">0.9</confidence>",
+			"<taxonomy><scientific_name>s</scientific_name></taxonomy>", "<taxonomy><code>c</code></taxonomy>", "<branch_length>x</branch_length>", "<confidence>1e400</confidence>"}
+		res := []string{}
+		for _, d := range deco {
+			res = append(res, "<clade>"+d+"</clade>")
+		}
+		if depth > 0 {
+			sub := clades(depth - 1)
+			pick := []string{sub[0], sub[1], sub[3], sub[len(sub)-1]}
+			for _, d := range deco[:4] {
+				res = append(res, "<clade>"+d+pick[0]+"</clade>")                 // single child
+				res = append(res, "<clade>"+d+pick[1]+pick[2]+"</clade>")         // two children
+				res = append(res, "<clade>"+d+pick[1]+pick[2]+pick[3]+"</clade>") // three
+			}
+		}
+		return res
+	}
+	for _, c := range clades(2) {
+		for _, rooted := range []string{"true", "false", "maybe", ""} {
+			attr := ""
+			if rooted != "" {
+				attr = " rooted=\"" + rooted + "\""
+			}
+			out = append(out, structDoc{utils.FORMAT_PHYLOXML, "<phyloxml><phylogeny" + attr + ">" + c + "</phylogeny></phyloxml>"})
+		}
+		out = append(out, structDoc{utils.FORMAT_PHYLOXML, "<phyloxml><phylogeny rooted=\"true\">" + c + c + "</phylogeny><phylogeny>" + c + "</phylogeny></phyloxml>"})
+	}
+	for _, x := range []string{"<phyloxml></phyloxml>", "<phyloxml><phylogeny></phylogeny></phyloxml>", "<phyloxml/>", "<other/>", "", "<phyloxml><phylogeny rooted=\"true\"><clade/></phylogeny></phyloxml>",
+		"<phyloxml><phylogeny><clade><clade><clade><clade><name>deep</name></clade></clade></clade></clade></phylogeny></phyloxml>",
+		"<phyloxml>" + strings.Repeat("<phylogeny><clade><name>a</name></clade></phylogeny>", 50) + "</phyloxml>",
+		"<phyloxml><phylogeny>" + strings.Repeat("<clade>", 3000) + "<name>x</name>" + strings.Repeat("</clade>", 3000) + "</phylogeny></phyloxml>"} {
+		out = append(out, structDoc{utils.FORMAT_PHYLOXML, x})
+	}
+	// Nextstrain nodes
+	var nodes func(depth int) []string
+	nodes = func(depth int) []string {
+		attrs := []string{`"name":"a","node_attrs":{"div":1}`, `"name":"","node_attrs":{"div":0.5}`, `"node_attrs":{}`, `"name":"b"`, `"name":"c","node_attrs":{"div":null}`,
+			`"name":"d","node_attrs":{"div":"x"}`, `"name":"e","node_attrs":{"div":2,"num_date":{"value":2020.5},"country":{"value":"x, y:z"},"accession":"A B"},"branch_attrs":{"labels":{"aa":"S:N501Y, E:x"},"mutations":{"nuc":["A1T"]}}`,
+			`"name":"f","branch_attrs":null,"children":null`}
+		res := []string{}
+		for _, a := range attrs {
+			res = append(res, "{"+a+"}")
+		}
+		if depth > 0 {
+			sub := nodes(depth - 1)
+			for _, a := range attrs[:4] {
+				sep := ","
+				if a == "" {
+					sep = ""
+				}
+				res = append(res, "{"+a+sep+`"children":[]}`)
+				res = append(res, "{"+a+sep+`"children":[`+sub[0]+`]}`)
+				res = append(res, "{"+a+sep+`"children":[`+sub[0]+","+sub[1]+","+sub[6]+`]}`)
+			}
+		}
+		return res
+	}
+	for _, nd := range nodes(2) {
+		for _, ver := range []string{`"version":"v2",`, `"version":"v1",`, ``, `"version":2,`} {
+			out = append(out, structDoc{utils.FORMAT_NEXTSTRAIN, "{" + ver + `"tree":` + nd + "}"})
+		}
+	}
+	for _, x := range []string{`{}`, `{"version":"v2"}`, `{"version":"v2","tree":null}`, `{"version":"v2","tree":[]}`, `[]`, `null`, `{"version":"v2","tree":{"children":[{"children":[{"children":[]}]}]}}`,
+		`{"version":"v2","tree":` + strings.Repeat(`{"name":"n","children":[`, 2000) + `{"name":"x"}` + strings.Repeat(`]}`, 2000) + `}`} {
+		out = append(out, structDoc{utils.FORMAT_NEXTSTRAIN, x})
+	}
+	return out
 }
